@@ -36,6 +36,50 @@ class MachineryError(Exception):
     pass
 
 
+class SutRaised(Exception):
+    """The implementation raised, from inside its own code, an exception the driver had no event for.
+
+    Drivers record the exceptions a property talks about as events; anything else that escapes from inside pyoda_time while
+    it is being driven means a public call the property covers did not complete.  It becomes a verdict (not a machinery
+    failure): clause implementation_raised_while_being_driven, keyed by exception class and raising site."""
+
+    def __init__(self, exc: str, where: str, message: str):
+        super().__init__(exc, where, message)
+        self.exc, self.where, self.message = exc, where, message
+
+
+def classify_exception(e: BaseException):
+    """SutRaised if the innermost frame of e lies in the repository's package, else None (harness / environment fault)."""
+    if isinstance(e, SutRaised):
+        return e
+    import traceback as _tb
+
+    frames = _tb.extract_tb(e.__traceback__)
+    if not frames:
+        return None
+    inner = frames[-1]
+    root = str(REPO / "pyoda_time")
+    if inner.filename.startswith(root):
+        return SutRaised(type(e).__name__, f"{inner.filename[len(str(REPO)) + 1:]}:{inner.name}", str(e)[:300])
+    return None
+
+
+class _Guarded:
+    """Picklable wrapper for worker functions: re-raises implementation exceptions as SutRaised (which survives pickling)."""
+
+    def __init__(self, fn):
+        self.fn = fn
+
+    def __call__(self, x):
+        try:
+            return self.fn(x)
+        except Exception as e:  # noqa: BLE001
+            s = classify_exception(e)
+            if s is not None:
+                raise s from None
+            raise
+
+
 def spec_library() -> str:
     dirs = [str(SPEC)] + [str(p) for p in sorted(SPEC.rglob("*")) if p.is_dir()]
     return os.pathsep.join(dirs)
@@ -464,6 +508,7 @@ def parallel_map(fn, items: Iterable, procs: int = NCPU, chunksize: int = 1) -> 
     import multiprocessing as mp
 
     items = list(items)
+    fn = _Guarded(fn)
     if procs <= 1 or len(items) <= 1:
         return [fn(x) for x in items]
     from harness import cov
